@@ -30,7 +30,9 @@ RULE = (
     "invalid parameter cells x label/hint/neither/media x calculation x trigger, groups/repeats with appearance/intent/body::x and "
     "count cells of all shapes (constant, expression, bare reference, reference-prefixed expression, function call), table-list "
     "groups, unlabelled sections of invisible rows, empty sections; on 25-35% of the sheets rows marked disabled of every kind "
-    "(questions, selects, audit, begin/end, rows that would be rejected) and falsy marks on active rows; non-trivial = accepted and "
+    "(questions, selects, audit, begin/end, rows that would be rejected) and falsy marks on active rows; on 20-30% every combination "
+    "of the meta-shaping settings (omit_instanceID x instance_name x instance_id x public_key, entities); 12% of all cases re-delivered "
+    "as xlsx with spacer / trailing columns; non-trivial = accepted and "
     "containing a group/repeat or a control with attributes"
 )
 
